@@ -46,10 +46,11 @@ static inline Real LPFatof(const char* s)
 {
    Real v = atof(s);
 
-   if(v > Real(infinity))
+   // only the IEEE infinities are mapped; finite values beyond 1e100 keep their (correctly rounded) value
+   if(v > std::numeric_limits<Real>::max())
       return Real(infinity);
 
-   if(v < Real(-infinity))
+   if(v < -std::numeric_limits<Real>::max())
       return Real(-infinity);
 
    return v;
